@@ -171,6 +171,39 @@ def build_kprog(seed, names):
             tab.append('{ "fk_%d_%d", %s, %d, &fk_%d_%d }' % (i, sh, lit(k), sh, i, sh))
     body.append('static const KEntry ktab_[] = {\n  ' + ',\n  '.join(tab) + '\n};')
     body.append('extern "C" __attribute__((visibility("default"))) const KEntry* cutk_table(int* n) { *n = %d; return ktab_; }' % len(tab))
+    # generated expression programs: postfix strings over a b c (run-time operands), k<i> (constants) and the
+    # operators + - (kind 0: exact model in the harness, C01.expr) plus * / n(eg) A(bs) f(loor) (kind 1: compared
+    # across builds only, C08.prog). Every intermediate is tested (on the raw representation) for being a finite value; the program returns the value and that flag.
+    progs = []; r = _mix(seed * 7919 + 5)
+    def rnd(n):
+        nonlocal r
+        r = _mix(r); return r % n
+    def gen(depth, ops):
+        if depth == 0 or rnd(4) == 0:
+            t = rnd(5); return ('a', 'b', 'c')[t] if t < 3 else 'k%d' % rnd(len(ks))
+        op = ops[rnd(len(ops))]
+        if op in 'nAf': return gen(depth - 1, ops) + ' ' + op
+        return gen(depth - 1, ops) + ' ' + gen(depth - 1, ops) + ' ' + op
+    for i in range(40): progs.append((0, gen(2 + rnd(3), '+-')))
+    for i in range(40): progs.append((1, gen(2 + rnd(3), '+-+-*/nAf')))
+    ptab = []
+    body.append('struct PEntry { const char* postfix; int kind; int64_t (*fn)(int64_t, int64_t, int64_t, int64_t*); };')
+    for i, (kind, pf) in enumerate(progs):
+        st = []; lines = []; n = 0
+        for tok in pf.split():
+            if tok in ('a', 'b', 'c'): st.append('F(%s)' % tok)
+            elif tok[0] == 'k': st.append('as_fixed(%s)' % lit(ks[int(tok[1:])]))
+            else:
+                if tok in 'nAf':
+                    x = st.pop(); e = {'n': '(-%s)' % x, 'A': 'abs(%s)' % x, 'f': 'floor(%s)' % x}[tok]
+                else:
+                    y = st.pop(); x = st.pop(); e = '(%s %s %s)' % (x, tok, y)
+                lines.append('  fixed_t t%d = %s; nan |= (t%d.v >= INT64_MAX || t%d.v <= -INT64_MAX);' % (n, e, n, n)); st.append('t%d' % n); n += 1    # flag: not a finite value (NaN sentinel, or -2^63 from an out-of-domain floor)
+        body.append('extern "C" __attribute__((visibility("default"), noinline)) int64_t fp_%d(int64_t a, int64_t b, int64_t c, int64_t* flag) {\n  bool nan = false; (void)a; (void)b; (void)c;\n%s\n  fixed_t res = %s; *flag = nan ? 1 : 0; return res.v; }' % (i, '\n'.join(lines), st[-1]))
+        ptab.append('{ "%s", %d, &fp_%d }' % (pf, kind, i))
+    body.append('static const PEntry ptab_[] = {\n  ' + ',\n  '.join(ptab) + '\n};')
+    body.append('extern "C" __attribute__((visibility("default"))) const PEntry* cutp_table(int* n) { *n = %d; return ptab_; }' % len(ptab))
+    body.append('extern "C" __attribute__((visibility("default"))) const int64_t* cutk_consts(int* n) { static const int64_t ks_[] = { %s }; *n = %d; return ks_; }' % (', '.join(lit(k) for k in ks), len(ks)))
     text = '\n'.join(body) + '\n'
     if not os.path.exists(src) or open(src).read() != text: open(src, 'w').write(text)
     def one(n):
